@@ -6,6 +6,7 @@ import (
 	"fmt"
 	"go/types"
 	"sort"
+	"strings"
 )
 
 type State struct {
@@ -18,6 +19,7 @@ type State struct {
 	// on the paths this state stands for. Frame conditions are checked against it: each
 	// logged write must be covered by a modifies clause or hit an object allocated later.
 	Writes []*WriteRec
+	Entry  *State // the state at function entry (nil in the entry state itself)
 }
 
 // WriteRec is one logged write.
@@ -43,7 +45,7 @@ func newState() *State {
 }
 
 func (s *State) clone() *State {
-	n := &State{G: s.G, Cells: make(map[*Cell]Value, len(s.Cells)), Heap: make(map[string]*Term, len(s.Heap)), Alloc: s.Alloc, Epoch: s.Epoch, Writes: s.Writes}
+	n := &State{G: s.G, Cells: make(map[*Cell]Value, len(s.Cells)), Heap: make(map[string]*Term, len(s.Heap)), Alloc: s.Alloc, Epoch: s.Epoch, Writes: s.Writes, Entry: s.Entry}
 	for k, v := range s.Cells {
 		n.Cells[k] = v
 	}
@@ -66,9 +68,36 @@ func (s *State) heap(name string, srt *Sort) *Term {
 		panic(fmt.Sprintf("heap family %s used at sorts %s and %s", name, o, srt))
 	}
 	heapSorts[name] = srt
+	if s.Epoch.IsConst() && s.Epoch.Val.Sign() == 0 {
+		registerEntryHeapFact(name, srt)
+	}
 	// the never-written contents of a family are a function of the epoch (0 at entry; a fresh
 	// epoch after every total havoc), so that merged states whose epoch is an ite stay linked
 	return App("heap0|"+name, srt, s.Epoch)
+}
+
+// entryHeapFacts: heap closedness at entry. Every reference stored in a struct field at entry
+// designates an object that existed at entry (is below the entry allocation counter, or is an
+// embedded array). Held as quantified facts over the object reference, instantiated where
+// the entry contents of the family are read.
+var entryHeapFacts = map[string]*LazyForall{}
+
+func registerEntryHeapFact(name string, srt *Sort) {
+	if _, ok := entryHeapFacts[name]; ok || !strings.HasPrefix(name, "H|") {
+		return
+	}
+	if srt.Kind != SArray || srt.Idx != RefSort || srt.Elem != RefSort {
+		return
+	}
+	if strings.HasSuffix(name, "|tag") || strings.HasSuffix(name, ".tag") {
+		return // dynamic type tags of interface values are not references
+	}
+	h0 := App("heap0|"+name, srt, BVi(0, 32))
+	a0 := Var("alloc@0", RefSort)
+	entryHeapFacts[name] = &LazyForall{Guard: True, Sort: RefSort, Desc: "heap closed at entry: " + name, Body: func(r *Term) *Term {
+		v := Select(h0, r)
+		return Or(ULt(v, a0), ULe(BVu(0x80000000, 32), v))
+	}}
 }
 
 func (s *State) setHeap(name string, t *Term) {
@@ -114,6 +143,7 @@ func mergeStates(a, b *State) *State {
 	}
 	out.Alloc = Ite(c, a.Alloc, b.Alloc)
 	out.Epoch = Ite(c, a.Epoch, b.Epoch)
+	out.Entry = a.Entry
 	// union of the write logs (entries carry their own guards)
 	seenW := map[*WriteRec]bool{}
 	for _, w := range a.Writes {
@@ -326,6 +356,22 @@ func (s *State) load(l Loc) Value {
 	}
 	v := fromLeaves(ty, ts)
 	s.assume(s.wf(v))
+	// Values read from heap families that have not changed since entry were already present
+	// at entry, so the references among them are older than anything allocated since.
+	if s.Entry != nil && l.Kind == LHeap && len(ls) > 0 {
+		unchanged := true
+		for _, lf := range ls {
+			name := fam + "|" + key + "|" + joinName(prefix, lf.Name)
+			if cur, ok := s.Heap[name]; ok {
+				if old, ok2 := s.Entry.Heap[name]; !ok2 || old != cur {
+					unchanged = false
+				}
+			}
+		}
+		if unchanged && s.Epoch == s.Entry.Epoch {
+			s.assume((&State{Alloc: s.Entry.Alloc}).wf(v))
+		}
+	}
 	return v
 }
 
